@@ -50,8 +50,9 @@ CLAIMS = {
         text="Histories of two operations (add_ds / harvest_combos / harvest_cases / save_merge_ds, plus "
              "expand_dims / drop_sel) over 3 coordinates x 1 variable with every cell pattern, the three overwrite "
              "policies, data names with and without extension, h5netcdf|joblib, new Harvester objects, sync off: "
-             "memory = disk = policy(ghost); conflicts raise and change nothing.  Thorough: one-step induction "
-             "from an arbitrary consistent state."),
+             "memory = disk = policy(ghost); conflicts raise and change nothing; holes in the grid, aliasing of "
+             "the caller's Dataset and two live Harvester objects on one file.  Thorough: one-step induction "
+             "from an arbitrary consistent state, split by policy and operation."),
     "C06": dict(
         engine="A", category="model_checking", design_ref="DESIGN.md 5/C06",
         technique="CrossHair symbolic execution of the real farmer-attached crop code (Runner/Harvester/Sampler.Crop, "
@@ -69,7 +70,7 @@ CLAIMS = {
         text="Solver-enumerated crash points: for every kill instant of every phase on 2-batch crops (K=2 chunks per "
              "file; thorough: second kill during recovery, both rmtree orders): a fresh process's reap refuses or is "
              "exact, the documented recovery reaches the direct-run result, data already in a harvester file or "
-             "sampler table survives.  One known finding (sampler duplicate-on-retry window) is listed and probed."),
+             "sampler table survives; writes buffered until close, recovery under another pid.  One known finding (sampler duplicate-on-retry window) is listed and probed."),
     "C11": dict(
         engine="A", category="model_checking", design_ref="DESIGN.md 5/C11",
         technique="CrossHair over StepFS timelines: each file's visible state is a solver-chosen monotone position "
@@ -78,7 +79,9 @@ CLAIMS = {
                   "counterexample schedules replayed with real threads on the real disk",
         text="1-2 concurrent growers (K=2; thorough K=3) and a reap(wait=True) or a progress poller: for every "
              "placement of the reader's observations relative to the writers' steps the reaper returns exactly the "
-             "direct-run result and progress queries never count a partly written result."),
+             "direct-run result and progress queries never count a partly written result.  Writes are either "
+             "visible at once or buffered until a solver-chosen later step (at the latest close); the same batch "
+             "grown by two growers at once and grown again after it finished are explored as well."),
     "C13": dict(
         engine="A", category="model_checking", design_ref="DESIGN.md 5/C13",
         technique="CrossHair symbolic execution of the real is_case_missing / find_missing_cases / parse_into_cases "
@@ -103,7 +106,8 @@ CLAIMS = {
                   "sow_samples/grow/reap) over MiniPD + FakeFS with the drawn indices solver-chosen",
         text="Two-run histories (n<=2) with combos override, direct or through a crop, fresh Sampler objects, "
              "pickle|csv, shuffle: exactly n rows appended, earlier rows unchanged, rows pair drawn arguments with the "
-             "function's value, disk = memory, a new sampler continues."),
+             "function's value, disk = memory, a new sampler continues; two live Sampler objects on one file, a "
+             "crop reused for a second run, generator-valued combos."),
     "C16": dict(
         engine="A", category="other", design_ref="DESIGN.md 5/C16",
         technique="CrossHair symbolic execution of the real gen_cluster_script + the generated Python program "
